@@ -460,7 +460,12 @@ def run_unit(unit):
     elif unit['harness'] == 'client-extracts':
         from . import c10
         u = {k: v for k, v in unit.items() if k != 'harness'}
-        yield from c10.run_unit(u)
+        for part in c10.run_unit(u):
+            # deviations recorded under C10 (known_findings.json ids 'C10-...') are reported by C10's own check; here they are neither an
+            # alarm nor a finding of this property
+            if isinstance(part, dict) and part.get('cex'):
+                part['cex'] = [cx for cx in part['cex'] if not str(cx.get('finding') or '').startswith('C10-')]
+            yield part
     else:
         yield from run_bounds(unit)
 
